@@ -193,6 +193,12 @@ func c05Shapes() []c05shape {
 			Values: []any{gen.S{"id": 7.0}, gen.S{"id": 0.0}, gen.S{"role": "adm"}, gen.S{"role": "toolong"}}},
 		{Name: "object-allOf-two-members", Kind: "object", Schema: gen.S{"allOf": gen.Arr(gen.S{"type": "object", "properties": gen.S{"id": gen.S{"type": "integer", "minimum": 1.0}}}, gen.S{"type": "object", "properties": gen.S{"role": gen.S{"type": "string", "maxLength": 3.0}}})},
 			Values: []any{gen.S{"id": 7.0}, gen.S{"id": 0.0}, gen.S{"role": "adm"}, gen.S{"id": 7.0, "role": "adm"}, gen.S{"id": 7.0, "role": "toolong"}}},
+		// a composition one member of which says nothing about the type (the usual {allOf: [$ref, {constraints}]})
+		{Name: "allOf-typed-and-untyped-member", Kind: "prim", Schema: gen.S{"allOf": gen.Arr(gen.S{"type": "integer"}, gen.S{"minimum": 3.0})}, Values: []any{2.0, 3.0, 9.0}, Bad: []any{"abc"}},
+		{Name: "allOf-untyped-member-first", Kind: "prim", Schema: gen.S{"allOf": gen.Arr(gen.S{"maximum": 5.0}, gen.S{"type": "integer"})}, Values: []any{2.0, 5.0, 9.0}},
+		// a closed object: what the schema does not declare is part of the value all the same, and is refused
+		{Name: "object-closed", Kind: "object", Schema: gen.S{"type": "object", "properties": gen.S{"id": gen.S{"type": "integer"}, "role": strS}, "additionalProperties": false},
+			Values: []any{gen.S{"id": 7.0}, gen.S{"id": 7.0, "role": "r"}, gen.S{"id": 7.0, "extra": "x"}, gen.S{"extra": "x"}}},
 		{Name: "object-oneOf", Kind: "object", Schema: gen.S{"oneOf": gen.Arr(
 			gen.S{"type": "object", "required": gen.Arr("id"), "properties": gen.S{"id": gen.S{"type": "integer", "minimum": 1.0}}},
 			gen.S{"type": "object", "required": gen.Arr("role"), "properties": gen.S{"role": gen.S{"type": "string", "maxLength": 3.0}}})},
@@ -384,6 +390,19 @@ func c05Group(c *core.Ctx, cell c05cell, sh c05shape, required bool, qname strin
 		if present && sh.Kind != "prim" && c05HasDelim(v, delims) {
 			c.Cover("excluded", "delimiter-in-value/"+style)
 			return
+		}
+		if present && sh.Name == "object-closed" && cell.In == "query" && style == "form" && explode {
+			// exploded, the properties are query keys like any other parameter's: a key the closed object does not declare
+			// cannot be told from a foreign one, so it carries no verdict there
+			if m, ok := v.(map[string]any); ok {
+				props, _ := sh.Schema["properties"].(gen.S)
+				for k := range m {
+					if _, declared := props[k]; !declared {
+						c.Cover("excluded", "undeclared key of a closed exploded form object")
+						return
+					}
+				}
+			}
 		}
 		if present {
 			req = build(v, order)
